@@ -932,16 +932,29 @@ class DocutilsRenderer(RendererProtocol):
             # markdown-it encodes unsafe characters with percent-encoding
             # we want to get back the original, source input
             uri = self.md.normalizeLinkText(uri)
-            _parsed = urlparse(uri)
-            parsed = {
-                "uri": uri,
-                "scheme": _parsed.scheme,
-                "netloc": _parsed.netloc,
-                "path": _parsed.path,
-                "params": _parsed.params,
-                "query": _parsed.query,
-                "fragment": _parsed.fragment,
-            }
+            try:
+                _parsed = urlparse(uri)
+            except ValueError as exc:
+                # e.g. "Invalid IPv6 URL", for an unbalanced bracket in the authority:
+                # the conversion cannot be applied, the link is rendered as written
+                self.create_warning(
+                    f"Invalid 'href' attribute value: {uri!r}: {exc}",
+                    MystWarnings.INVALID_ATTRIBUTE,
+                    line=token_line(token, default=0),
+                    append_to=self.current_node,
+                )
+                uri = cast(str, token.attrGet("href") or "")
+                conversion = {}
+            else:
+                parsed = {
+                    "uri": uri,
+                    "scheme": _parsed.scheme,
+                    "netloc": _parsed.netloc,
+                    "path": _parsed.path,
+                    "params": _parsed.params,
+                    "query": _parsed.query,
+                    "fragment": _parsed.fragment,
+                }
             # Note we specifically do not use jinja2 here,
             # to restrict the scope of the templating language,
             # so that it can be used in a language agnostic way
@@ -1051,7 +1064,17 @@ class DocutilsRenderer(RendererProtocol):
         explicit = (token.info != "auto") and bool(token.children)
 
         # split the href up into parts
-        uri_parts = urlparse(href)
+        try:
+            uri_parts = urlparse(href)
+        except ValueError as exc:
+            # e.g. "Invalid IPv6 URL", for an unbalanced bracket in the authority
+            self.create_warning(
+                f"Invalid 'href' attribute value: {href!r}: {exc}",
+                MystWarnings.INVALID_ATTRIBUTE,
+                line=token_line(token, default=0),
+                append_to=self.current_node,
+            )
+            return
         target = uri_parts.fragment
         invs, domains, otypes = None, None, None
         if uri_parts.path:
